@@ -87,6 +87,10 @@ pub fn apply_storage_op(ex: &mut Exec, uid: u32, kind: &OpKind) -> R {
         ex.stats.probe("generic_storage_by_reference_overload");
         return apply_storage_op(ex, uid, inner);
     }
+    ex.restrict_op = matches!(
+        kind,
+        OpKind::RestrictRead { .. } | OpKind::RestrictShared { .. } | OpKind::RestrictExcl { .. }
+    );
     let state_props: Vec<&str> = match kind {
         OpKind::Insert {
             slot,
@@ -724,7 +728,9 @@ pub fn apply_storage_op(ex: &mut Exec, uid: u32, kind: &OpKind) -> R {
             ))
         }
     };
-    ex.post(&state_props)
+    let r = ex.post(&state_props);
+    ex.restrict_op = false;
+    r
 }
 
 fn model_entry(
